@@ -98,6 +98,8 @@ structure G where
   live : List GSock := []
   probes : List Probe := []
   fails : List String := []
+  lo : Nat := ephLo
+  hi : Nat := ephHi
 deriving Inhabited
 
 def G.fail (g : G) (msg : String) : G := { g with fails := g.fails ++ [msg] }
@@ -125,9 +127,9 @@ def anyKey (g : G) (h : Nat) (definite : Bool) (p : BindKey → Bool) : Bool :=
 
 def isLocalG (g : G) (h : Nat) (a : Ip) : Bool := a.isLoopback || (g.addrs.getD h []).contains a
 
-def distinctInRange (ports : List Nat) : Nat :=
+def distinctInRange (lo hi : Nat) (ports : List Nat) : Nat :=
   let arr := ports.foldl (fun (a : Array Bool) p =>
-    if ephLo ≤ p && p ≤ ephHi then a.set! (p - ephLo) true else a) (Array.replicate (ephHi - ephLo + 1) false)
+    if lo ≤ p && p ≤ hi then a.set! (p - lo) true else a) (Array.replicate (hi - lo + 1) false)
   arr.foldl (fun n b => if b then n + 1 else n) 0
 
 def checkBind (g : G) (h s : Nat) (ip : Ip) (port : Nat) (tcp : Bool) (obs : String) : G :=
@@ -149,7 +151,7 @@ def checkBind (g : G) (h s : Nat) (ip : Ip) (port : Nat) (tcp : Bool) (obs : Str
         if conflictDefinite then g.fail s!"bind s{s}: ok although a live socket conflicts"
         else g
       else
-        if lp < ephLo || lp > ephHi then g.fail s!"bind s{s}: ephemeral port {lp} out of range"
+        if lp < g.lo || lp > g.hi then g.fail s!"bind s{s}: ephemeral port {lp} out of range"
         else if portTaken then
           g.fail s!"bind s{s}: ephemeral port {lp} already in use at a local address"
         else g
@@ -164,7 +166,7 @@ def checkBind (g : G) (h s : Nat) (ip : Ip) (port : Nat) (tcp : Bool) (obs : Str
     else
       -- exhaustion is only legitimate when every port of the range is taken in this space
       let used := (g.live.filter fun x => x.host == h && x.key.v6 == ip.v6 && x.key.tcp == tcp).map (·.key.port)
-      if distinctInRange used ≥ ephHi - ephLo + 1 then g
+      if distinctInRange g.lo g.hi used ≥ g.hi - g.lo + 1 then g
       else g.fail s!"bind s{s}: port 0 refused although a port of the range is free"
   | _ => g.fail s!"bind s{s}: unexpected observation {obs}"
 
@@ -277,7 +279,7 @@ def step (g : G) (op : R17.Op) (obs : String) : G :=
         let g := if p != ⟨ip, port⟩ then g.fail s!"tconnect s{s}: wrong peer address" else g
         let g := if l.ip != Spec.srcSelect (g.addrs.getD h []) (Ip.unspec ip.v6) ip then
             g.fail s!"tconnect s{s}: unexpected source address {R17.ipTok l.ip}" else g
-        let g := if l.port < ephLo || l.port > ephHi || portTaken then
+        let g := if l.port < g.lo || l.port > g.hi || portTaken then
             g.fail s!"tconnect s{s}: ephemeral port {l.port} not fresh" else g
         -- the server side now holds an (unaccepted) child on the same 4-tuple
         let child : List GSock := match dh with
